@@ -77,6 +77,9 @@ Proof.
   pose proof (Pos2Nat.is_pos (h_next h)). lia.
 Qed.
 
+Lemma find_root_snoc' F t : tid t ∉ roots F -> find_root (tid t) (F ++ [t]) = Some t.
+Proof. intros H. rewrite find_root_app_r by done. unfold find_root. cbn. by rewrite bool_decide_eq_true_2. Qed.
+
 Section Reference.
   Variable oracle : nat -> bool.
 
@@ -231,7 +234,7 @@ Section Reference.
      oracle (h_req h) = false /\ oracle (S (h_req h)) = false /\
      spec_add_reference_to_object F (Some p) (Some sb) (Some y) (Some r) (Some nk) = (F', true) /\
      cJSON_AddItemReferenceToObject oracle (Some p) (Some sb) (Some y) h = Ret (true, h') /\
-     WF h' F' /\ live_below h')
+     WF h' F' /\ live_below h' /\ (NoLeak h F -> NoLeak h' F'))
     \/ (exists h' fresh,
         spec_add_reference_to_object F (Some p) (Some sb) (Some y) fresh None = (F, false) /\
         cJSON_AddItemReferenceToObject oracle (Some p) (Some sb) (Some y) h = Ret (false, h') /\
@@ -276,10 +279,27 @@ Section Reference.
       + unfold spec_add_reference_to_object, spec_create_reference. rewrite Hy. change (cids (T y d csy)) with (tid <$> csy). cbn [tdata].
         fold dr0 F1. change (h_next h1) with (Pos.succ r) in S1. by rewrite S1.
       + by rewrite (bindM_Ret _ _ _ _ _ S2).
-      + apply live_below_upd_maps. intros b Hb. cbn in Hb. cbn.
-        apply elem_of_union in Hb as [Hb|Hb]; [apply elem_of_singleton in Hb as ->; lia|].
-        apply elem_of_union in Hb as [Hb|Hb]; [apply elem_of_singleton in Hb as ->; lia|].
-        pose proof (LB b Hb). lia.
+      + split.
+        { apply live_below_upd_maps. intros b Hb. cbn in Hb. cbn.
+          apply elem_of_union in Hb as [Hb|Hb]; [apply elem_of_singleton in Hb as ->; lia|].
+          apply elem_of_union in Hb as [Hb|Hb]; [apply elem_of_singleton in Hb as ->; lia|].
+          pose proof (LB b Hb). lia. }
+        intros NL b Hb. set (nk := Pos.succ r). set (dr := rd_owned_key dr0 nk).
+        (* ownership of the result forest: the old blocks, the reference node, the key copy *)
+        assert (Hroot' : find_root r (F ++ [T r dr []]) = Some (T r dr [])) by (apply (find_root_snoc' F (T r dr [])); done).
+        assert (Hrem' : remove_root r (F ++ [T r dr []]) = F) by (apply (remove_root_snoc F (T r dr [])); done).
+        assert (ND' : NoDup (ids (F ++ [T r dr []]))).
+        { rewrite ids_app. cbn. apply NoDup_app. split; [apply W|]. split; [|apply NoDup_singleton].
+          intros z Hz Hz'. apply elem_of_list_singleton in Hz' as ->. done. }
+        assert (Ho' : owned (set_children p (csp ++ [T r dr []]) (remove_root r (F ++ [T r dr []]))) ≡ₚ owned (F ++ [T r dr []])).
+        { apply (owned_move_root' _ r (T r dr []) p dp csp _ ND' Hroot'); [by rewrite Hrem'|by rewrite <- Permutation_cons_append]. }
+        rewrite Hrem' in Ho'. rewrite Ho', owned_snoc_root.
+        assert (Hos : owned_strs dr = [nk]).
+        { unfold owned_strs, dr. rewrite is_ref_set_key_clear, is_const_set_key_clear. unfold dr0. by rewrite is_ref_reference. }
+        rewrite Hos. unfold lib_live in Hb. apply elem_of_filter in Hb as [Hb1 Hb2]. cbn in Hb1, Hb2.
+        apply elem_of_app. destruct (decide (b = nk)) as [->|Hn1]; [left; right; by left|].
+        destruct (decide (b = r)) as [->|Hn2]; [left; by left|right].
+        apply NL. apply elem_of_filter. rewrite !lookup_insert_ne in Hb1 by done. split; [done|]. set_solver.
   Qed.
 End Reference.
 
